@@ -343,7 +343,7 @@ def inherit(ctx, vb):
         base = lambda e: bool(find_calls(e, 'region_name_and_vftable'))
         ok3 = r[1].endswith('Option::None') and base(tv['functions']) and base(tv['type_']) and base(tv['base_field']) and \
             strip(tv['functions'])[0] == 'field' and strip(tv['functions'])[2] == 'functions' and strip(tv['type_'])[2] == 'type_'
-        ctx.ob(['C06'], 'R-SLP', 'VB|inherited', ok3, 'without an own block the functions and table type are the base\'s, the pointer is the base\'s', loc(x['span']))
+        ctx.ob(['C06', 'C04'], 'R-SLP', 'VB|inherited', ok3, 'without an own block the functions and table type are the base\'s, the pointer is the base\'s', loc(x['span']))
     # D3 (C14-D4): the generated vftable item is registered on every successful own-block path
     ai = [c for c in vb.calls(lambda r: r['path'] and r['path'].endswith('SemanticState::add_item'))]
     okd3 = False
